@@ -416,6 +416,9 @@ def _fault(argv):
     return sched.get(str(n), sched.get("*"))
 
 
+LAST_MODE = None
+
+
 def run(argv):
     """returns (returncode, stdout bytes, stderr bytes); negative rc = killed by signal"""
     a = parse_args(argv)
@@ -424,8 +427,12 @@ def run(argv):
     if a["cmd"] == "list-transforms":
         return 0, ("Registered transforms klasses:\n" + TRANSFORMS + "\n").encode(), b""
     mode = _fault(argv)
+    global LAST_MODE
+    LAST_MODE = mode
     out_path = a.get("output")
     if mode:
+        if mode == "not_startable":
+            raise FileNotFoundError(2, "No such file or directory (injected)")
         # each mode: (write real result?, rc, stdout, stderr)
         if mode == "exit1_silent":
             return 1, b"", b""
@@ -472,17 +479,28 @@ def run(argv):
 class FakePopen(object):
     """in-process replacement for subprocess.Popen as used by sigver/algsupport"""
     calls = []
+    log = []
 
     def __init__(self, argv, stderr=None, stdout=None, **kw):
         FakePopen.calls.append(list(argv))
-        self.returncode, self._out, self._err = run(list(argv))
+        global LAST_MODE
+        LAST_MODE = None
+        try:
+            self.returncode, self._out, self._err = run(list(argv))
+        except OSError:
+            FakePopen.log.append(dict(argv=list(argv), mode=LAST_MODE, rc=None, err=None))
+            raise
+        FakePopen.log.append(dict(argv=list(argv), mode=LAST_MODE, rc=self.returncode, err=self._err))
 
     def communicate(self):
         return self._out, self._err
 
 
 def main():
-    rc, so, se = run(sys.argv)
+    try:
+        rc, so, se = run(sys.argv)
+    except OSError:
+        rc, so, se = 127, b"", b"cannot execute\n"
     sys.stdout.buffer.write(so)
     sys.stderr.buffer.write(se)
     sys.stdout.flush()
